@@ -378,6 +378,11 @@ def routes(prog, chk):
                 comp = {f["name"] for f in hirq.exprs(arm["body"], "Field") if f["name"] in ("0", "1") and hirq.field_chain(f) and "origin" in hirq.field_chain(f)}
                 want = ({"min"}, {"Sub"}) if d in ("Left", "Up") else ({"max"}, {"Add"})
                 wcomp = {"0"} if d in HORZ else {"1"}
+                if len(meths) == 1 and len(ops) == 1 and (meths, ops) != want and (meths, ops) in (({"min"}, {"Sub"}), ({"max"}, {"Add"}), ({"min"}, {"Add"}), ({"max"}, {"Sub"})):
+                    # which operands are compared is not readable, but the arm itself takes the min / max and moves
+                    # it by + / -: a combination other than the expected one puts the turn on the wrong side
+                    chk.bad("A15.rectilinear", key + ":u-side", where, f"U-route for {d}: the turn-around coordinate is {sorted(meths)[0]}(..) {'+' if 'Add' in ops else '-'} offset (expected {sorted(want[0])[0]}(..) {'+' if 'Add' in want[1] else '-'} offset): the route turns back across the shapes instead of beyond the outermost end point")
+                    continue
                 if not meths or not ops or not comp:
                     # the turn-around coordinate is computed somewhere else (a helper): which side it lies on is not
                     # readable from this arm
